@@ -113,6 +113,8 @@ type jService struct {
 	Name     string
 	BasePath string
 	Methods  []*jMethod
+	// Audience is written as options.audience = [...]
+	Audience []string
 }
 
 type jTopicMsg struct {
@@ -578,6 +580,9 @@ func (r *j5Renderer) service(depth int, s *jService, keyword string) {
 	}
 	if s.BasePath != "" {
 		r.line(depth+1, "basePath = "+quoteJ5(s.BasePath))
+	}
+	if len(s.Audience) > 0 {
+		r.line(depth+1, "options.audience = ["+strings.Join(quoteAll(s.Audience), ", ")+"]")
 	}
 	for _, m := range s.Methods {
 		r.sb.WriteString("\n")
